@@ -75,7 +75,7 @@ pub enum Op {
 
 /// menu entries that are 1-tuples `(T,)` (the `*_one` methods take the component itself)
 fn single_tuple(k: usize) -> bool {
-    matches!(k, 1..=9 | 26 | 28)
+    matches!(k, 1..=9 | 26 | 28 | 34)
 }
 
 fn show_reads(reads: &[(u8, bool)]) -> String {
@@ -311,6 +311,9 @@ fn type_id_table() -> HashMap<TypeId, usize> {
         let id = with_type!(t, T, TypeId::of::<T>());
         m.insert(id, t);
     }
+    // the two fields of `PB` taken apart (hidden from per-entity observations, visible in archetype lists)
+    m.insert(TypeId::of::<u64>(), 120);
+    m.insert(TypeId::of::<u32>(), 121);
     m
 }
 
@@ -1244,7 +1247,7 @@ impl Gen {
 
     fn bundle_for_types(&mut self, ts: &[usize]) -> Bundle {
         ts.iter()
-            .map(|&t| (t, if t == 10 { self.rng.below(4) as u64 } else if t >= 7 { 0 } else { self.fresh() }))
+            .map(|&t| (t, if t == 10 { self.rng.below(4) as u64 } else if (7..=9).contains(&t) { 0 } else { self.fresh() }))
             .collect()
     }
 
@@ -1411,17 +1414,72 @@ impl Gen {
     /// scenario ops name "the handle pushed last" by this placeholder; it is bound when the op is issued
     const LAST: HRef = HRef::Tab(usize::MAX, 0);
 
+
     fn bind_last(op: Op, ctx: &Ctx) -> Op {
-        let last = || if ctx.table.is_empty() { HRef::Lit(u32::MAX, u32::MAX) } else { ctx.href(ctx.table.len() - 1) };
-        let is_last = |h: &HRef| matches!(h, HRef::Tab(n, _) if *n == usize::MAX);
+        // `HRef::Tab(usize::MAX, j)` = the handle pushed j-th from last
+        let bind = |h: &HRef| -> HRef {
+            match h {
+                HRef::Tab(n, j) if *n == usize::MAX => {
+                    if ctx.table.len() > *j {
+                        ctx.href(ctx.table.len() - 1 - *j)
+                    } else {
+                        HRef::Lit(u32::MAX, u32::MAX)
+                    }
+                }
+                h => h.clone(),
+            }
+        };
         match op {
-            Op::Insert { w, h, k, b } if is_last(&h) => Op::Insert { w, h: last(), k, b },
-            Op::Remove { w, h, k } if is_last(&h) => Op::Remove { w, h: last(), k },
-            Op::Exchange { w, h, ks, k, b } if is_last(&h) => Op::Exchange { w, h: last(), ks, k, b },
-            Op::Despawn { w, h } if is_last(&h) => Op::Despawn { w, h: last() },
-            Op::Query { w, q, path, h, n, es } if is_last(&h) => Op::Query { w, q, path, h: last(), n, es },
+            Op::Insert { w, h, k, b } => Op::Insert { w, h: bind(&h), k, b },
+            Op::Remove { w, h, k } => Op::Remove { w, h: bind(&h), k },
+            Op::Exchange { w, h, ks, k, b } => Op::Exchange { w, h: bind(&h), ks, k, b },
+            Op::Despawn { w, h } => Op::Despawn { w, h: bind(&h) },
+            Op::Query { w, q, path, h, n, es } => Op::Query { w, q, path, h: bind(&h), n, es },
+            Op::Cont(crate::containers::COp::QInsert { q, h, k, bundle }) => {
+                Op::Cont(crate::containers::COp::QInsert { q, h: bind(&h), k, bundle })
+            }
+            Op::Cont(crate::containers::COp::QRemove { q, h, k }) => Op::Cont(crate::containers::COp::QRemove { q, h: bind(&h), k }),
             op => op,
         }
+    }
+
+    /// scenario: `PB` is a bundle type and, stored whole, a component type; the same entity set sees it added and
+    /// removed in both roles, directly and through a command buffer (caches keyed by `TypeId` must not mix the roles)
+    fn plan_pb_roles(&mut self, ctx: &Ctx, w: usize) {
+        use crate::containers::COp;
+        let e1 = HRef::Tab(usize::MAX, 1);
+        let e2 = HRef::Tab(usize::MAX, 0);
+        let mk = |g: &mut Gen, k: usize| g.bundle_for_types(&bundle_types(k));
+        let a1 = mk(self, 1);
+        let a2 = mk(self, 1);
+        self.plan.push_back(Op::Spawn { w, k: Some(1), b: a1 });
+        self.plan.push_back(Op::Spawn { w, k: Some(1), b: a2 });
+        let buffered = self.profile == Profile::Containers;
+        if buffered {
+            let free = (0..2).find(|i| !ctx.containers.cmdbufs.contains_key(i));
+            let q = free.unwrap_or(0);
+            let (x, y) = (mk(self, 34), mk(self, 35));
+            let direct = Op::Insert { w, h: e2.clone(), k: Some(35), b: y };
+            if self.rng.chance(50) {
+                self.plan.push_back(direct.clone());
+            }
+            if free.is_some() {
+                self.plan.push_back(Op::Cont(COp::QNew { q }));
+            }
+            self.plan.push_back(Op::Cont(COp::QInsert { q, h: e1.clone(), k: Some(34), bundle: x }));
+            self.plan.push_back(Op::Cont(COp::QRun { q, w }));
+            self.plan.push_back(direct);
+        } else {
+            for h in [&e1, &e2] {
+                let (x, y) = (mk(self, 34), mk(self, 35));
+                self.plan.push_back(Op::Insert { w, h: h.clone(), k: Some(34), b: x });
+                self.plan.push_back(Op::Insert { w, h: h.clone(), k: Some(35), b: y });
+            }
+            let (first, second) = if self.rng.chance(50) { (35, 34) } else { (34, 35) };
+            self.plan.push_back(Op::Remove { w, h: e1.clone(), k: first });
+            self.plan.push_back(Op::Remove { w, h: e2.clone(), k: second });
+        }
+        self.plan.push_back(Op::Obs { w });
     }
 
     /// scenario: one entity grows to ten component types of four different alignments, one insert at a
@@ -1716,6 +1774,12 @@ impl Gen {
             return Self::bind_last(op, ctx);
         }
         let w = if nworlds > 1 && self.rng.chance(25) { 1 } else { 0 };
+        if matches!(self.profile, Profile::Mixed | Profile::Containers) && self.rng.chance(2) {
+            self.plan_pb_roles(ctx, w);
+            if let Some(op) = self.plan.pop_front() {
+                return Self::bind_last(op, ctx);
+            }
+        }
         if self.profile == Profile::Mixed && self.rng.chance(2) {
             self.plan_wide_entity(w);
             if let Some(op) = self.plan.pop_front() {
@@ -2020,7 +2084,9 @@ pub fn run_history(
         }
     }
     {
-        let lay: Vec<String> = layouts().iter().enumerate().map(|(i, (s, a))| format!("{}:{}:{}", i, s, a)).collect();
+        let mut lay: Vec<String> = layouts().iter().enumerate().map(|(i, (s, a))| format!("{}:{}:{}", i, s, a)).collect();
+        lay.push("120:8:8".into());
+        lay.push("121:4:4".into());
         out.trace.push(format!("types [{}]", lay.join(",")));
     }
     let mut produced = 0usize;
